@@ -1045,7 +1045,7 @@ package bkl
 //@     invariant ((_ is VList) vals)
 //@     invariant (= (app (ls vals) (valuesK (mapOf obj) rest)) (valuesK (mapOf obj) (sortedKeys (mapOf obj))))
 
-//@ func GetFormat(name) (res, err) trusted
+//@ func GetFormat(name) (res, err)
 //@   ensures (= (isErr err) (= (fmtByName name) 0))
 //@   ensures (=> (isErr err) (= err ErrUnknownFormat))
 //@   ensures (=> (not (isErr err)) (= res (fmtByName name)))
